@@ -45,6 +45,31 @@ Theorem C10_only_denoted_partial :
 Proof. exact no_junk. Qed.
 Print Assumptions C10_only_denoted_partial.
 
+(** Counts ('# N instances.'): for a document without repeated statements the
+    dictionary records key [S] for node [n] exactly as many times as the
+    specification's answer list holds [n] ... *)
+Theorem C10_multiplicity_partial :
+  forall tg cs fmt orc G,
+    C10_dom tg orc G = true -> nodup_graph G = true ->
+    exists d, run orc (to_tspec tg cs fmt) G = OOk d /\
+              forall S n, wf_key S = true -> wf_node n = true ->
+                          count_str (key_of S) (labels_of d (node_key n)) =
+                          count_obj (ON n) (denote_list tg (o_ans orc) G S).
+Proof. exact multiplicity. Qed.
+Print Assumptions C10_multiplicity_partial.
+
+(** ... hence once per node where no node is answered twice for one label
+    ([C10_dom_count]): the number of instances counted for a shape is the number
+    of distinct nodes it denotes. *)
+Theorem C10_each_once_partial :
+  forall tg cs fmt orc G,
+    C10_dom_count tg orc G = true ->
+    exists d, run orc (to_tspec tg cs fmt) G = OOk d /\
+              forall S n, wf_key S = true -> wf_node n = true ->
+                          (count_str (key_of S) (labels_of d (node_key n)) <= 1)%nat.
+Proof. exact each_once. Qed.
+Print Assumptions C10_each_once_partial.
+
 (** On the domain no literal is denoted (so the statement above, which speaks
     of nodes, covers every denoted term). *)
 Theorem C10_no_literal_instances :
